@@ -2,50 +2,14 @@
 //! Bounded-exhaustive layouts × all registration orders of the definers × every usage kind ×
 //! every column, against the `PytestLookup` reference model (ws.rs).
 
-use crate::db::{build_db, hash_lines, index_snapshot, permutations, rel, IndexParts};
-use crate::layouts::{classify, Layout};
-use crate::lsp::Lsp;
+use crate::checks::wscheck::{case_json, check_usages, Counters};
+use crate::db::{build_db, hash_lines, index_snapshot, permutations, IndexParts};
+use crate::layouts::Layout;
 use crate::report::{is_thorough, par_batches, Report};
-use crate::ws::{DefId, Rendered, Ws, ROOT};
-use serde_json::{json, Value};
-use std::collections::HashSet;
-use std::sync::atomic::{AtomicU64, Ordering};
-use std::sync::{Arc, Mutex};
-
-fn def_loc(r: &Rendered, ws: &Ws, d: DefId) -> (String, usize) {
-    let s = r.defs.iter().find(|x| x.id == d).expect("def site");
-    (ws.files[d.file].rel.clone(), s.line)
-}
-
-fn find_def(r: &Rendered, ws: &Ws, relp: &str, line: usize) -> Option<DefId> {
-    r.defs
-        .iter()
-        .find(|x| ws.files[x.id.file].rel == relp && x.line == line)
-        .map(|x| x.id)
-}
-
-pub struct Counters {
-    pub queries: AtomicU64,
-    pub dbs: AtomicU64,
-    pub analyses: AtomicU64,
-    pub nontrivial: AtomicU64,
-    pub skipped: AtomicU64,
-    pub handler_calls: AtomicU64,
-    pub states: Mutex<HashSet<u64>>,
-}
-impl Counters {
-    pub fn new() -> Self {
-        Counters {
-            queries: AtomicU64::new(0),
-            dbs: AtomicU64::new(0),
-            analyses: AtomicU64::new(0),
-            nontrivial: AtomicU64::new(0),
-            skipped: AtomicU64::new(0),
-            handler_calls: AtomicU64::new(0),
-            states: Mutex::new(HashSet::new()),
-        }
-    }
-}
+use crate::ws::{Ws, ROOT};
+use serde_json::json;
+use std::sync::atomic::Ordering;
+use std::sync::Arc;
 
 pub fn definers(ws: &Ws) -> (Vec<usize>, Vec<usize>) {
     let mut d = Vec::new();
@@ -58,134 +22,6 @@ pub fn definers(ws: &Ws) -> (Vec<usize>, Vec<usize>) {
         }
     }
     (d, o)
-}
-
-/// Check every usage site × column of one database.  Returns number of queries.
-pub fn check_db(
-    rep: &Report,
-    cnt: &Counters,
-    lay: &Layout,
-    ws: &Ws,
-    r: &Rendered,
-    db: &Arc<pytest_language_server::FixtureDatabase>,
-    order: &[usize],
-) {
-    let using = ws.file_index(&lay.using_rel()).unwrap();
-    let lsp = Lsp::new(db.clone(), None);
-    for (ui, u) in r.usages.iter().enumerate() {
-        let expected = ws.expected_for(u);
-        let exp_loc = expected.map(|d| def_loc(r, ws, d));
-        let path = ws.path(u.file);
-        // first registered definition of the name (after the self-exclusion the code applies)
-        for col in (u.start - 1)..=(u.end) {
-            let inside = col >= u.start && col < u.end;
-            let got = db.find_fixture_definition(&path, (u.line - 1) as u32, col as u32);
-            cnt.queries.fetch_add(1, Ordering::Relaxed);
-            let got_loc = got.as_ref().map(|d| (rel(&d.file_path, ROOT), d.line));
-            let ok = if inside {
-                got_loc == exp_loc
-            } else {
-                got_loc.is_none()
-            };
-            if !ok {
-                let e_cls = match (inside, expected) {
-                    (false, _) => "outside-token".to_string(),
-                    (true, None) => "none".to_string(),
-                    (true, Some(d)) => {
-                        let c = classify(ws, u.file, d);
-                        // relative level is irrelevant for the import branch's root cause
-                        if c.starts_with("conftest-import@") {
-                            "conftest-import".to_string()
-                        } else {
-                            c
-                        }
-                    }
-                };
-                let g_id = got_loc.as_ref().and_then(|(f, l)| find_def(r, ws, f, *l));
-                let g_cls = match (&got_loc, g_id) {
-                    (None, _) => "none".to_string(),
-                    (Some(_), Some(d)) => {
-                        if Some(d)
-                            == (if u.kind == crate::ws::UsageKind::FixtureParam {
-                                Some(DefId {
-                                    file: u.file,
-                                    item: u.item,
-                                })
-                            } else {
-                                None
-                            })
-                            && ws.name_of(d) == u.name
-                        {
-                            "self".to_string()
-                        } else {
-                            classify(ws, u.file, d)
-                        }
-                    }
-                    (Some(_), None) => "unknown-location".to_string(),
-                };
-                // is the wrong answer the first-registered definition of the name?
-                let first_reg = db.definitions.get(&u.name).and_then(|v| {
-                    v.iter()
-                        .find(|d| {
-                            // mirror the self-exclusion: a fixture's own parameter skips itself
-                            !(u.kind == crate::ws::UsageKind::FixtureParam
-                                && rel(&d.file_path, ROOT) == ws.files[u.file].rel
-                                && d.line == u.line
-                                && d.name == u.name)
-                        })
-                        .map(|d| (rel(&d.file_path, ROOT), d.line))
-                });
-                let is_first = got_loc.is_some() && got_loc == first_reg;
-                let fp = format!(
-                    "expected={} got={} got_is_first_registered={}",
-                    e_cls, g_cls, is_first
-                );
-                let what = format!(
-                    "go-to-definition on `{}` ({:?}) in {} line {} col {}: expected {:?}, got {:?}",
-                    u.name, u.kind, ws.files[u.file].rel, u.line, col, exp_loc, got_loc
-                );
-                rep.violation(&fp, &what, || {
-                    json!({"layout": lay, "order": order, "usage_index": ui, "col": col,
-                           "files": ws.files.iter().map(|f| f.rel.clone()).collect::<Vec<_>>(),
-                           "expected": exp_loc, "observed": got_loc})
-                });
-            }
-            // the in-process handler must agree with the library answer (conversion 0/1-based, URI)
-            if col == u.start {
-                cnt.handler_calls.fetch_add(1, Ordering::Relaxed);
-                match lsp.goto_definition(&path, (u.line - 1) as u32, col as u32) {
-                    Ok(loc) => {
-                        let h = loc.map(|l| {
-                            (
-                                rel(&crate::lsp::path_of(&l.uri), ROOT),
-                                l.range.start.line as usize + 1,
-                                l.range.start.character,
-                            )
-                        });
-                        let want = got_loc.clone().map(|(f, l)| (f, l, 0u32));
-                        if h != want {
-                            rep.violation(
-                                "handler-disagrees-with-library",
-                                &format!(
-                                    "textDocument/definition handler returned {:?}, library {:?}",
-                                    h, want
-                                ),
-                                || json!({"layout": lay, "order": order, "usage_index": ui, "col": col}),
-                            );
-                        }
-                    }
-                    Err(p) => {
-                        rep.violation(
-                            "handler-panic",
-                            &format!("definition handler panicked: {}", p),
-                            || json!({"layout": lay, "order": order, "usage_index": ui, "col": col}),
-                        );
-                    }
-                }
-            }
-        }
-    }
-    let _ = using;
 }
 
 pub fn run(rep: &Report) {
@@ -227,7 +63,7 @@ pub fn run(rep: &Report) {
             cnt.analyses.fetch_add(order.len() as u64, Ordering::Relaxed);
             let h = hash_lines(&index_snapshot(&db, ROOT, IndexParts::CORE));
             cnt.states.lock().unwrap().insert(h);
-            check_db(rep, &cnt, lay, &ws, &r, &db, &order);
+            check_usages(rep, &cnt, &case_json(&ws, &order, false), &ws, &r, &db);
         }
         if i % 997 == 0 {
             rep.sample(json!({"layout": lay, "files": ws.files.iter().map(|f| f.rel.clone()).collect::<Vec<_>>()}));
@@ -251,28 +87,3 @@ pub fn run(rep: &Report) {
     rep.assume("reference model PytestLookup (harness/src/ws.rs) is the oracle; absolute imports in a conftest resolve to the module in the conftest's own directory");
 }
 
-pub fn replay(case: &Value) {
-    let lay: Layout = serde_json::from_value(case["layout"].clone()).expect("layout");
-    let order: Vec<usize> = serde_json::from_value(case["order"].clone()).expect("order");
-    let ui = case["usage_index"].as_u64().unwrap() as usize;
-    let col = case["col"].as_u64().unwrap() as usize;
-    let ws = lay.to_ws();
-    let r = ws.render();
-    for (i, f) in ws.files.iter().enumerate() {
-        println!("--- {} (analysis position {:?})\n{}", f.rel, order.iter().position(|&x| x == i), r.texts[i]);
-    }
-    let db = build_db(&ws, &r, &order, false);
-    let u = &r.usages[ui];
-    let got = db.find_fixture_definition(&ws.path(u.file), (u.line - 1) as u32, col as u32);
-    let exp = ws.expected_for(u).map(|d| def_loc(&r, &ws, d));
-    println!(
-        "query: {} line {} col {} (`{}`, {:?})\nexpected: {:?}\nobserved: {:?}",
-        ws.files[u.file].rel,
-        u.line,
-        col,
-        u.name,
-        u.kind,
-        exp,
-        got.map(|d| (rel(&d.file_path, ROOT), d.line))
-    );
-}
